@@ -484,7 +484,7 @@ func RunCheck(id, tier string, nworkers int) int {
 		id, tier, execs, states, trans, valid, outcomes, nontriv, envPts, exhaustive, time.Since(start).Seconds())
 	for _, name := range names {
 		st := merged[name]
-		fmt.Printf("  phase %-28s exec=%-10d states=%-10d viol=%-6d skipped=%v counters=%v\n", name, st.Executions, st.States, st.ViolationN, st.Skipped, compact(st.Counters))
+		fmt.Printf("  phase %-28s exec=%-10d states=%-10d viol=%-6d skipped=%v counters=%s\n", name, st.Executions, st.States, st.ViolationN, st.Skipped, trunc(compact(st.Counters), 300))
 	}
 	for _, f := range workerFailures {
 		fmt.Printf("  WORKER-FAILURE (run not exhaustive): %s\n", firstLine(f))
